@@ -192,6 +192,7 @@ func runC19(c *Ctx) {
 	c19EveryCaseTried(c)
 	c19AlternativesKept(c)
 	c19R5(c)
+	c.shared("R8", "C10/R6", "the bindings of the case that matched are the ones its body sees: a name is resolved through the frames at every evaluation, never from a remembered earlier resolution", keyHas("evaluator-state", "syntax-tree-store", "interpreter-state"), func(s *Ctx) { interpreterState(s, "R6") })
 	c.shared("R7", "C08/R1", "the bindings of a case are visible in that case's body and end with it: every match evaluation pushes a frame of its own and pops it again (a push always makes a frame, a pop always removes one)", keyHas("pop-primitive", "push-", "balance "), func(s *Ctx) { c08R1(s, discoverFrameModel(s.P)) })
 	c.shared("R6", "C15/R6", "a literal pattern matches when subject == literal: the matcher's equality verdict excludes unset operands like the == operator does", func(o Obligation) bool { return !strings.Contains(o.Key, "getArrayPrototype") }, func(s *Ctx) { equalityAgreement(s, "R6") })
 
